@@ -46,14 +46,15 @@ round trip C01 does not depend on the alignments being the specification's. -/
 theorem padOK_gen : PadOK genAlign := by
   intro t x
   obtain ⟨a, h1, h2, h3⟩ := genAlign_sane t.code (code_mem_typeCodes t)
+  have hmax : 7 ≤ Gen.Wire.maxPad := by decide     -- whatever the `padding` table's size (or none at all)
   unfold padLenOf
-  simp only [genAlign, h1, Option.getD_some, Gen.Wire.maxPad, padLen]
+  simp only [genAlign, h1, Option.getD_some, padLen]
   have ha : ¬ (a = 0) := by omega
   simp only [ha, if_false]
   have hm := Nat.mod_lt x h2
   by_cases h0 : x % a = 0
   · simp [h0]
-  · have h4 : a - x % a ≤ 7 := by omega
+  · have h4 : a - x % a ≤ Gen.Wire.maxPad := by omega
     have h5 : (a - x % a) % a = a - x % a := Nat.mod_eq_of_lt (by omega)
     simp [h0, h4, h5]
 
